@@ -25,11 +25,12 @@ LOGIC_TEXT = {
 
 
 class Rule:
-    __slots__ = ("pattern", "children", "glob", "ordered", "rewrite", "logic", "ignore", "uid", "nkeys", "written")
+    __slots__ = ("pattern", "children", "glob", "ordered", "rewrite", "logic", "ignore", "uid", "nkeys", "written", "icase")
     _n = 0
 
-    def __init__(self, pattern, children=(), glob=False, ordered=False, rewrite=False, logic=None, ignore=False, nkeys=None):
+    def __init__(self, pattern, children=(), glob=False, ordered=False, rewrite=False, logic=None, ignore=False, nkeys=None, icase=False):
         self.pattern = pattern
+        self.icase = icase          # %ignore_case: rows of this rule are matched and compared without regard to letter case
         self.children = list(children)
         self.glob = glob
         # what the rule line says, and what is in force: the rule compiler gives %ordered precedence over %rewrite, and
@@ -53,12 +54,14 @@ class Rule:
         if rewrite:
             s += " %rewrite"
         s += LOGIC_TEXT[logic]
+        if self.icase:
+            s += " %ignore_case"
         return s
 
     def flags(self):
         ordered, rewrite, logic = self.written
         return [f for f, on in (("global", self.glob), ("ordered", ordered), ("rewrite", rewrite),
-                                (logic, logic), ("ignore", self.ignore)) if on]
+                                (logic, logic), ("ignore", self.ignore), ("icase", self.icase)) if on]
 
     def to_json(self):
         return {"p": self.pattern, "f": self.flags(), "c": [c.to_json() for c in self.children], "k": self.nkeys}
@@ -68,7 +71,7 @@ class Rule:
         f = set(d.get("f", []))
         logic = next((x for x in ("undo_redo", "permanent", "ignore_changes") if x in f), None)
         return Rule(d["p"], [Rule.from_json(c) for c in d.get("c", [])], glob="global" in f, ordered="ordered" in f,
-                    rewrite="rewrite" in f, logic=logic, ignore="ignore" in f, nkeys=d.get("k"))
+                    rewrite="rewrite" in f, logic=logic, ignore="ignore" in f, nkeys=d.get("k"), icase="icase" in f)
 
 
 def text(rules, indent=0):
@@ -112,7 +115,7 @@ def govern(level: Level, row: str):
     """-> (rule, key, child_level) or None if the rulebook does not know the row"""
     matches = []
     for (r, is_local) in level.candidates():
-        k = rulelang.ref_match(r.pattern, row)
+        k = rulelang.ref_match(r.pattern.lower(), row.lower()) if r.icase else rulelang.ref_match(r.pattern, row)
         if k is not None:
             if r.ignore:
                 return None
@@ -164,7 +167,11 @@ def rule_rows(rule: Rule, key, nvalues=2):
     tail_free = rulelang.tok_class(toks[-1]) != "~"
     # rows of %ordered rules are identified by their whole text: where a row whose text changes under the same key
     # ends up in the sequence is device-specific (replace in place vs. re-append), so the universe has one text per key
-    if nvalues > 1 and tail_free and not rule.children and not rule.ordered:
+    if rule.icase:
+        # a second spelling of the same row (other letter case): for the rulebook it is the same line
+        if nvalues > 1 and base.upper() != base:
+            rows.append(base.upper())
+    elif nvalues > 1 and tail_free and not rule.children and not rule.ordered:
         rows.append(base + " x")
     return rows
 
